@@ -208,3 +208,24 @@ func WithHugeLine(t *rapid.T, x string) string {
 		return x + "\n" + line + "\n"
 	}
 }
+
+// WithStrayBytes inserts, once in about fifteen inputs, a byte sequence that is not valid UTF-8
+// (Latin-1 text, a lone continuation or lead byte) right after a '#' or a '"' or at a random place:
+// files in legacy encodings exist, and comments and strings are where their odd bytes live.
+func WithStrayBytes(t *rapid.T, x string) string {
+	if rapid.IntRange(0, 14).Draw(t, "stray_bytes") != 0 {
+		return x
+	}
+	var spots []int
+	for i := 0; i < len(x); i++ {
+		if x[i] == '#' || x[i] == '"' {
+			spots = append(spots, i+1)
+		}
+	}
+	pos := rapid.IntRange(0, len(x)).Draw(t, "stray_pos")
+	if len(spots) > 0 && rapid.IntRange(0, 3).Draw(t, "stray_anywhere") != 0 {
+		pos = spots[rapid.IntRange(0, len(spots)-1).Draw(t, "stray_spot")]
+	}
+	b := rapid.SampledFrom([]string{"caf\xe9", "\xe9", "\xff", "\xc3", "\xa0", "\x80\x80", "\xed\xa0\x80", "\xf5"}).Draw(t, "stray_seq")
+	return x[:pos] + b + x[pos:]
+}
